@@ -29,21 +29,43 @@ use std::time::Duration;
 
 const BASES: [&str; 10] = ["Int", "Float", "String", "Boolean", "ID", "Kind", "Date", "Stamp", "Filter", "Pair"];
 
-fn cfg(optional: bool) -> nitrogql_config_file::Config {
+fn cfg(optional: bool, remap: bool) -> nitrogql_config_file::Config {
     let mut c = crate::c01::config_with_date();
     c.generate.r#type.allow_undefined_as_optional_input = optional;
+    if remap {
+        // the configuration re-types built-in scalars
+        use nitrogql_config_file::{ScalarTypeConfig, SendReceiveScalarTypeConfig};
+        c.generate.r#type.scalar_types.insert("ID".into(), ScalarTypeConfig::Single("string".into()));
+        c.generate.r#type.scalar_types.insert("Int".into(), ScalarTypeConfig::SendReceive(SendReceiveScalarTypeConfig { send: "number | bigint".into(), receive: "number".into() }));
+    }
     c
+}
+
+thread_local! {
+    static REMAP: std::cell::Cell<bool> = const { std::cell::Cell::new(false) };
+}
+/// the configured operation-input TypeScript text of a scalar under the current configuration
+fn scalar_in(name: &str) -> Option<&'static str> {
+    if REMAP.with(|r| r.get()) {
+        match name {
+            "ID" => return Some("string"),
+            "Int" => return Some("number | bigint"),
+            _ => {}
+        }
+    }
+    scalar_ts(name).map(|t| t[0])
 }
 
 /// SEM_SCHEMA plus a small input object without defaults/required fields
 fn schema_text() -> String {
-    format!("{}\ninput Pair {{ a: Int b: [Kind!] }}\nextend type Query {{ pair(p: Pair): Int }}\n", crate::gen_sem::SEM_SCHEMA)
+    format!("{}\ninput Pair {{ a: Int b: [Kind!] m: [[Int]!] }}\nextend type Query {{ pair(p: Pair): Int }}\n", crate::gen_sem::SEM_SCHEMA)
 }
 
 struct Subj {
     doc: nitrogql_ast::TypeSystemDocument<'static>,
     schema: graphql_type_system::Schema<std::borrow::Cow<'static, str>, nitrogql_ast::base::Pos>,
-    worlds: [World; 2],
+    /// [remap][optional]
+    worlds: [[World; 2]; 2],
     sch: Sch,
 }
 
@@ -54,8 +76,8 @@ fn subj() -> &'static Subj {
         let parsed = pipeline::parse_schema_files(texts).unwrap_or_else(|_| crate::report::machinery("C09 schema does not parse"));
         let doc = pipeline::resolve_and_check_schema(parsed).unwrap_or_else(|f| crate::report::machinery(&format!("C09 schema rejected: {:?}", f.diags)));
         let doc: &'static nitrogql_ast::TypeSystemDocument<'static> = Box::leak(Box::new(doc));
-        let mk = |optional: bool| {
-            let text = pipeline::schema_dts(doc, &cfg(optional)).unwrap_or_else(|e| crate::report::machinery(&format!("schema_dts: {e}"))).buffer;
+        let mk = |optional: bool, remap: bool| {
+            let text = pipeline::schema_dts(doc, &cfg(optional, remap)).unwrap_or_else(|e| crate::report::machinery(&format!("schema_dts: {e}"))).buffer;
             let mut w = World::new();
             w.load("schema", &text, &BTreeMap::new()).unwrap_or_else(|e| crate::report::machinery(&format!("R-TS cannot read schema file: {e}")));
             w
@@ -63,7 +85,7 @@ fn subj() -> &'static Subj {
         let rdoc = crate::rparse::parse_ts(&schema_text()).unwrap();
         let _ = subject_schema;
         let _ = sem_schema;
-        Subj { doc: doc.clone(), schema: pipeline::to_schema(doc), worlds: [mk(false), mk(true)], sch: Sch::from_doc(&rdoc).unwrap() }
+        Subj { doc: doc.clone(), schema: pipeline::to_schema(doc), worlds: [[mk(false, false), mk(true, false)], [mk(false, true), mk(true, true)]], sch: Sch::from_doc(&rdoc).unwrap() }
     })
 }
 
@@ -77,7 +99,10 @@ fn wrap(base: &str, shape: usize) -> Ty {
         4 => Ty::nn(Ty::list(t)),
         5 => Ty::nn(Ty::list(Ty::nn(t))),
         6 => Ty::list(Ty::list(t)),
-        _ => Ty::nn(Ty::list(Ty::nn(Ty::list(Ty::nn(t))))),
+        7 => Ty::nn(Ty::list(Ty::nn(Ty::list(Ty::nn(t))))),
+        // the two list levels differ in nullability
+        8 => Ty::list(Ty::nn(Ty::list(t))),
+        _ => Ty::nn(Ty::list(Ty::list(Ty::nn(t)))),
     }
 }
 
@@ -98,9 +123,9 @@ fn default_for(sch: &Sch, ty: &Ty) -> Value {
 // ---------------- R-COERCE on abstract values
 
 fn scalar_input_member(name: &str, v: &Val) -> bool {
-    let Some(ts) = scalar_ts(name) else { return false };
+    let Some(ts) = scalar_in(name) else { return false };
     let w = World::new();
-    match parse_type(ts[0]).and_then(|te| w.eval_in_empty(&te)) {
+    match parse_type(ts).and_then(|te| w.eval_in_empty(&te)) {
         Ok(t) => w.member(v, &t).unwrap_or(false),
         Err(_) => false,
     }
@@ -191,7 +216,7 @@ fn explicit_values(sch: &Sch, ty: &Ty, optional_on: bool, depth: usize) -> Vec<V
             }
             _ => {
                 // every representative member of the configured input TypeScript type
-                let ts = scalar_ts(&n.s).map(|t| t[0]).unwrap_or("never");
+                let ts = scalar_in(&n.s).unwrap_or("never");
                 let w = World::new();
                 if let Ok(t) = parse_type(ts).and_then(|te| w.eval_in_empty(&te)) {
                     let mut e = Enum { world: &w, cap: 100, truncated: false };
@@ -212,16 +237,17 @@ struct Cnt {
     truncated: AtomicU64,
 }
 
-fn check_op(rep: &Reporter, vars: &[VarDef], optional_on: bool, cnt: &Cnt, picks: Vec<u16>) {
+fn check_op(rep: &Reporter, vars: &[VarDef], optional_on: bool, remap: bool, cnt: &Cnt, picks: Vec<u16>) {
+    REMAP.with(|r| r.set(remap));
     let s = subj();
     let doc = ExecDoc { defs: vec![ExecDef::Op { p: P::default(), kind: OpKind::Query, name: Some(nm("Q")), vars: Some((P::default(), vars.to_vec())), dirs: vec![], sel: selset(vec![crate::gen_sem::typename()]) }] };
     let text = crate::render::exec_text(&doc);
-    let case = |extra: J| json!({"text": text, "allowUndefinedAsOptionalInput": optional_on, "picks": picks, "detail": extra});
+    let case = |extra: J| json!({"text": text, "allowUndefinedAsOptionalInput": optional_on, "builtin_scalars_retyped_by_config": remap, "picks": picks, "detail": extra});
     let ops = vec![(PathBuf::from("/p/a.graphql"), text.clone())];
     let r = catch(|| {
         let loaded = pipeline::load_operations(&ops, 1).map_err(|f| format!("{:?}", f.diags))?;
         pipeline::check_operations(&s.schema, &loaded).map_err(|f| format!("rejected: {:?}", f.diags.iter().map(|d| format!("{}:{}", d.kind, d.msg)).collect::<Vec<_>>()))?;
-        Ok::<_, String>(pipeline::operation_dts(&s.schema, &loaded[0].1, &cfg(optional_on), "./schema.js").buffer)
+        Ok::<_, String>(pipeline::operation_dts(&s.schema, &loaded[0].1, &cfg(optional_on, remap), "./schema.js").buffer)
     });
     let dts = match r {
         Err(p) => return rep.report(Violation { key: format!("panic@{}", p.key()), what: format!("panic at {}: {}", p.site, p.msg), case: case(json!({})) }),
@@ -232,7 +258,7 @@ fn check_op(rep: &Reporter, vars: &[VarDef], optional_on: bool, cnt: &Cnt, picks
         Ok(Ok(d)) => d,
     };
     cnt.ops.fetch_add(1, Ordering::Relaxed);
-    let mut world = s.worlds[optional_on as usize].clone();
+    let mut world = s.worlds[remap as usize][optional_on as usize].clone();
     let mut imports = BTreeMap::new();
     imports.insert("./schema.js".to_string(), "schema".to_string());
     if let Err(e) = world.load("op", &dts, &imports) {
@@ -343,18 +369,19 @@ pub fn run(args: &RunArgs) -> i32 {
     let sample: Mutex<Option<String>> = Mutex::new(None);
     // the space is a plain product; E1 with a bound equal to the number of choice points enumerates it completely
     let nvars_max = if args.quick() { 1 } else { 2 };
-    let stats = explore(&ExploreCfg { max_dev: if args.quick() { 5 } else { 6 }, threads: args.threads, budget: Duration::from_secs(if args.quick() { 50 } else { 2400 }) }, |c: &mut Chooser| {
+    let stats = explore(&ExploreCfg { max_dev: if args.quick() { 6 } else { 7 }, threads: args.threads, budget: Duration::from_secs(if args.quick() { 50 } else { 2400 }) }, |c: &mut Chooser| {
         let optional_on = !c.flag("option.off");
+        let remap = c.flag("config.retypes_builtin_scalars");
         let n = 1 + c.choose("vars-1", nvars_max);
         let mut vars = vec![];
         for i in 0..n {
             let base = BASES[c.choose("var.base", BASES.len())];
-            let shape = c.choose("var.shape", 8);
+            let shape = c.choose("var.shape", 10);
             let ty = wrap(base, shape);
             let default = if c.flag("var.default") { Some(default_for(&subj().sch, &ty)) } else { None };
             vars.push(VarDef { p: P::default(), name: nm(&format!("v{i}")), ty, default, dirs: vec![] });
         }
-        let key = format!("{optional_on}{vars:?}");
+        let key = format!("{optional_on}{remap}{vars:?}");
         if !distinct.insert(fnv(key.as_bytes())) {
             return;
         }
@@ -364,7 +391,7 @@ pub fn run(args: &RunArgs) -> i32 {
                 *s = Some(format!("{} (option {})", vars.iter().map(|v| format!("${}: {}{}", v.name.s, v.ty.show(), if v.default.is_some() { " = <default>" } else { "" })).collect::<Vec<_>>().join(", "), optional_on));
             }
         }
-        check_op(&rep, &vars, optional_on, &cnt, c.picks());
+        check_op(&rep, &vars, optional_on, remap, &cnt, c.picks());
     });
     let cov = json!({
         "states": distinct.len(),
